@@ -419,3 +419,74 @@ def gen_heap_estimator():
            "Definition estimator_reads : list (string * list string) :=\n  [" +
            "; ".join('("%s", [%s])' % (k, "; ".join('"%s"' % d for d in ds)) for k, ds in deps_out) + "].\n"]
     return write_if_changed("HeapEstimator.v", "".join(out))
+
+
+# ---------------------------------------------------------------------------------------------------------
+# HeapArgs: from command-line flags to VmConfig -- which flag writes which field of the configuration
+# (runtime/src/vm/args/parse.rs).  "*" = the configuration is assigned as a whole.
+def _cfg_writes(block, cfg_src, var="config"):
+    ws = []
+    if re.search(r"(?<![\w.])\*?%s\s*=[^=]" % var, block):
+        ws.append("*")
+    for m in re.finditer(r"(?<![\w.])%s\.((?:\w+\.)*\w+)\s*(?:[-+|&]?=)(?!=)" % var, block):
+        ws.append(m.group(1))
+    for m in re.finditer(r"&mut\s+%s\.(\w+)" % var, block):
+        ws.append(m.group(1))
+    for m in re.finditer(r"(?<![\w.])%s\.(\w+)\.(\w+)\s*\(" % var, block):
+        ws.append(m.group(1))
+    for m in re.finditer(r"(?<![\w.])%s\.(\w+)\s*\(" % var, block):
+        fm = re.search(r"fn %s\s*\(\s*&mut self[^)]*\)[^{]*\{(.*?)\n    \}" % m.group(1), cfg_src, flags=re.S)
+        if fm:
+            ws += _cfg_writes(fm.group(1), cfg_src, var="self") or ["*"]
+        elif not re.search(r"fn %s\s*\(\s*&self" % m.group(1), cfg_src):
+            ws.append("*")          # unknown method on the configuration: assume it may write anything
+    out = []
+    for w in ws:
+        if w not in out:
+            out.append(w)
+    return out
+
+
+@extract.register("HeapArgs")
+def gen_heap_args():
+    t = strip_comments(rd("runtime/src/vm/args/parse.rs"))
+    cfg_src = strip_comments(rd("runtime/src/vm/config.rs"))
+    pm = re.search(r"pub fn parse_vm_args\b.*?\n\}", t, flags=re.S)
+    am = re.search(r"fn apply_vm_arg\b.*?\n\}", t, flags=re.S)
+    if not pm or not am:
+        raise ExtractError("parse_vm_args / apply_vm_arg not found in runtime/src/vm/args/parse.rs")
+    body = pm.group(0)
+    if "VmConfig::default()" not in body.split("for arg in args")[0]:
+        raise ExtractError("parse_vm_args no longer starts from VmConfig::default()")
+    # -ae. keys
+    arms = list(re.finditer(r'"([\w-]+)"\s*=>\s*\{', am.group(0)))
+    if not arms:
+        raise ExtractError("apply_vm_arg: no `\"key\" => {` arms found")
+    arg_writes = []
+    for i, a in enumerate(arms):
+        blk = am.group(0)[a.end():arms[i + 1].start() if i + 1 < len(arms) else len(am.group(0))]
+        arg_writes.append((a.group(1), _cfg_writes(blk, cfg_src)))
+    # the loop's own flags and the part after the loop
+    loop, _, after = body.partition("program_args.push(")
+    outer = []
+    for m in re.finditer(r'if (?:arg == "([^"]+)"|let Some\(\w+\) = arg\.strip_prefix\("([^"]+)"\))\s*\{(.*?)\n        \}', loop, flags=re.S):
+        name = m.group(1) or m.group(2)
+        blk = m.group(3)
+        if "apply_vm_arg(" in blk:
+            continue
+        outer.append((name, _cfg_writes(blk, cfg_src)))
+    fin = re.search(r"if trusted_enabled\s*\{(.*?)\n    \}", after, flags=re.S)
+    rest = after if not fin else after.replace(fin.group(0), "")
+    fin_w = _cfg_writes(fin.group(1), cfg_src) if fin else []
+    rest_w = _cfg_writes(rest, cfg_src)
+    if rest_w:
+        fin_w += [w for w in rest_w if w not in fin_w]
+    q = lambda l: "[" + "; ".join('"%s"' % x for x in l) + "]"
+    out = [HEADER.format(src="runtime/src/vm/args/parse.rs, runtime/src/vm/config.rs"),
+           "From Coq Require Import String List NArith.\nImport ListNotations.\nLocal Open Scope string_scope.\n",
+           "(* which fields of VmConfig each flag assigns (\"*\" = the configuration as a whole): the -ae. / --ae- keys of apply_vm_arg, the flags\n"
+           "   parse_vm_args handles itself, and everything after the argument loop (trusted mode) *)\n",
+           "Definition arg_writes : list (string * list string) := [" + "; ".join('("%s", %s)' % (k, q(w)) for k, w in arg_writes) + "].\n",
+           "Definition outer_writes : list (string * list string) := [" + "; ".join('("%s", %s)' % (k, q(w)) for k, w in outer) + "].\n",
+           "Definition trusted_finalizer_writes : list string := " + q(fin_w) + ".\n"]
+    return write_if_changed("HeapArgs.v", "".join(out))
